@@ -24,6 +24,8 @@ theorem grammar_kept_terminals :
 theorem grammar_inline_rules :
     ∀ a ∈ allNT, (a.name ∈ Gen.Grammar.inlineRules ↔ a.inline = true) := by decide +kernel
 theorem grammar_ignored : Gen.Grammar.ignored = ["COMMENT", "WHITESPACE"] := by decide
+/-- whitespace (incl. form feed) and `//` comments are what the lexer ignores -/
+theorem grammar_ignored_patterns : Gen.Grammar.ignoredPatterns = ignoredPatterns := by rfl
 /-- the tree-shaping options of the `Lark(...)` call -/
 theorem grammar_options :
     Gen.Grammar.larkOptions = [("parser", "'lalr'"), ("start", "'expr'"), ("maybe_placeholders", "False"), ("priority", "'invert'")]
